@@ -177,3 +177,22 @@ fn c10_prefix_term_no_overflow() {
     kani::cover!(start > 30_000);
     std::mem::forget(m);
 }
+
+// ----------------------------------------------------------------------------------------------
+// C03 "the value never wraps around for long needles" on the calculate_score path (no needle-length
+// guard there, unlike the matrix path).  The Verus row bound says a score can reach
+// 36 + 26 (n-1), which exceeds u16::MAX from n = 2521 on; this obligation runs the real function
+// on that witness family (haystack == needle == 'a' x n): the result must not be smaller than the
+// unwrapped value capped at u16::MAX, and no arithmetic overflow may occur.  [bounded: two lengths]
+// ----------------------------------------------------------------------------------------------
+pub fn cs_long_needle_no_wrap<const N: usize>() {
+    let (cfg, _) = base_config(0);
+    let mut m = small_matcher(cfg, 8);
+    let hay = ascii(&LONG_HAY[..N]);
+    let s = m.calculate_score::<false, AsciiChar, AsciiChar>(hay, hay, 0, N, &mut Vec::new());
+    let unwrapped: u32 = 16 + 2 * 10 + 26 * (N as u32 - 1);
+    let capped = if unwrapped > u16::MAX as u32 { u16::MAX as u32 } else { unwrapped };
+    assert!(s as u32 == capped, "score of n consecutive matches is 36 + 26 (n-1), capped at u16::MAX, never wrapped");
+    kani::cover!(true);
+    std::mem::forget(m);
+}
